@@ -656,6 +656,17 @@ func c10KFStep(p []c10Decl, d *c10Decl) []string {
 		if c10LabelKwBefore(p, d) {
 			kf = append(kf, "C10-label-keyword-shadows-primary")
 		}
+		fallthrough
+	case d.Kind == c10Obj && d.Prim == c10PNone:
+		// redeclaration right after a null that left a resurrected container behind
+		if len(p) > 0 {
+			l := &p[len(p)-1]
+			K, ok := c10Abs(nil, d.R)
+			K0, ok0 := c10Abs(nil, l.R)
+			if l.Kind == c10Obj && l.Prim == c10PNull && ok && ok0 && c10FoldEq(K, K0) && c10UnderscoreInside(p[:len(p)-1], K) {
+				kf = append(kf, "C10-null-container-resurrected")
+			}
+		}
 	case d.Kind == c10EdgeAttr && d.V == nil:
 		kf = append(kf, "C10-edge-attribute-null-deletes-edge")
 	case d.Kind == c10Edge && d.Prim == c10PNull && d.Idx != nil:
